@@ -53,23 +53,27 @@ static int ref_envelope(const std::string &e, std::string &records) {
 
 struct C01 : Scenario {
   const Config &cfg; std::vector<Input> inputs; const Input *in = nullptr; int qpid = 0;
+  std::string exp_mess_tick; bool ticked = false;   // option clock=..: the second may change while the program runs (ALT_TICK at its time() calls)
   std::string exp_mess, exp_env; int exp_exit = 0; bool finished = false; int exitcode = -1; bool killed = false, crashed = false, signalled = false;
   bool committed_before_end = false;
   C01(const Config &c) : cfg(c) { inputs = make_inputs(c); }
 
   void setup(World &w) override {
     QmailEnv::build(w, cfg);
+    if (cfg.geti("clock", 0)) w.k.clock = cfg.geti("clock", 0);   // e.g. the last second of a day whose number has one digit
     int which = w.ex->choose_n((int) inputs.size(), BK_FREE);
     in = &inputs[which];
     std::map<int, int> fds; fds[0] = QmailEnv::preloaded_pipe(w, in->msg); fds[1] = QmailEnv::preloaded_pipe(w, in->env); fds[2] = QmailEnv::nullfd(w);
     qpid = w.spawn("/var/qmail/bin/qmail-queue", {"qmail-queue"}, fds, in->uid, GID_QMAIL, "/");
     std::string recs; exp_exit = ref_envelope(in->env, recs);
-    exp_mess = QmailEnv::received_line(qpid, in->uid) + in->msg;
+    if (!cfg.get("extra", "").empty() && exp_exit == 0) { size_t z = recs.find('\0'); if (z != std::string::npos) recs.insert(z + 1, "T" + cfg.get("extra", "") + std::string(1, '\0')); }   // a tree compiled with QUEUE_EXTRA (FAQ 8.2): one more recipient record after the sender
+    exp_mess = QmailEnv::received_line_at(qpid, in->uid, w.k.clock) + in->msg; exp_mess_tick = QmailEnv::received_line_at(qpid, in->uid, w.k.clock + 1) + in->msg;
     exp_env = "u" + std::to_string(in->uid) + '\0' + "p" + std::to_string(qpid) + '\0' + recs;
     w.counters["inputs_started"]++;
   }
 
   void alternatives(World &w, Proc &p, const Req &r, std::vector<Alt> &a) override {
+    if (r.op == VK_TIME && cfg.geti("clock", 0) && !ticked && w.ex->bound[BK_ENV] > 0) { a.push_back({BK_ENV, ALT_TICK, 1}); return; }
     if (World::intrinsic_local(r.op) && r.op != VK_FSTAT) return;
     if (r.op == VK_EXIT) { a.push_back({BK_CRASH, ALT_MACHINE_CRASH, 0}); return; }
     a.push_back({BK_CRASH, ALT_KILL, 0});
@@ -109,7 +113,7 @@ struct C01 : Scenario {
         w.counters["states_committed"]++;
         if (!m || !i) { w.violation(key, std::string(when) + ": todo/" + n + " is visible to the daemon but " + (!m ? "mess" : "intd") + " file is missing"); return; }
         if (m->ino != num) { w.violation(key, std::string(when) + ": mess file " + n + " has inode " + std::to_string(m->ino)); return; }
-        if (m->data != exp_mess) { w.violation(key, std::string(when) + ": message scheduled for delivery is not the complete message: " + std::to_string(m->data.size()) + " bytes, expected " + std::to_string(exp_mess.size()) + " [" + esc(m->data, 60) + "]"); return; }
+        if (m->data != exp_mess && !(ticked && m->data == exp_mess_tick)) { w.violation(key, std::string(when) + ": message scheduled for delivery is not the complete message: " + std::to_string(m->data.size()) + " bytes, expected " + std::to_string(exp_mess.size()) + " [" + esc(m->data, 60) + "]"); return; }
         if (t->data != exp_env) { w.violation(key, std::string(when) + ": envelope scheduled for delivery is [" + esc(t->data) + "], expected [" + esc(exp_env) + "]"); return; }
         if (m->synced != m->data || t->synced != t->data) { w.violation(key, std::string(when) + ": message is visible to the daemon (todo/" + n + ") but " + (m->synced != m->data ? "mess" : "envelope") + " data is not yet on disk (no fsync before publication)"); return; }
         if (exp_exit != 0) { w.violation(key, std::string(when) + ": malformed/incomplete envelope (documented exit " + std::to_string(exp_exit) + ") was committed to todo/"); return; }
@@ -123,6 +127,7 @@ struct C01 : Scenario {
 
   void after_step(World &w, Proc &p, const Step &st) override {
     (void) p;
+    if (st.injected && st.op == VK_TIME) { ticked = true; w.counters["clock_ticks_during_run"]++; }
     if (st.sigraised) { signalled = true; w.counters["signals_delivered"]++; return; }
     if (st.op == VK_KILL) { killed = true; w.counters["process_kills"]++; check_tree(w, "after the process was killed", true); return; }
     check_tree(w, ("after " + opname(st.op) + " #" + std::to_string(w.total_steps)).c_str(), false);
